@@ -76,8 +76,9 @@ def srv_add_task(eng, recv, args, result):
         conn = eng.truth(eng.state.heap[(me.oid, "connected")])
         eng.oblige("%s/R6:no-dispatch-after-close-decision" % eng.cur_func, z3.And(z3.Not(wc), z3.Not(cf)),
                    clause="server.add_task(channel) only while neither will_close nor close_when_flushed is set", kind="discipline")
-        eng.oblige("%s/R6:no-dispatch-when-disconnected" % eng.cur_func, conn,
-                   clause="server.add_task(channel) only while connected", kind="discipline")
+        if eng.role == "W":
+            eng.oblige("%s/R6:no-dispatch-when-disconnected" % eng.cur_func, conn,
+                       clause="a worker re-dispatches the connection only while connected", kind="discipline")
         lk = lock_of(eng, eng.state.heap[(me.oid, "requests_lock")])
         held = eng.state.ghost.setdefault("held", {}).get(lk.oid, 0) > 0
         eng.oblige("%s/R6:dispatch-decided-under-requests_lock" % eng.cur_func, z3.BoolVal(held),
@@ -137,6 +138,9 @@ def alias(eng, env):
 
 
 REQ_INV = [("close-when-flushed-means-queue-dropped", "implies(self.close_when_flushed, len(self.requests) == 0)")]
+# established by received()'s loop invariant on every normal exit; on an exceptional exit (OSError out of send_continue) the channel is
+# torn down by wasyncore's handle_error, so the fact is only ASSUMED when the lock is acquired (listed in the evidence)
+REQ_ASSUMED = [("C19-pending-request-is-not-completed", "implies(self.request is not None, not self.request.completed)")]
 OUT_INV = [("at-least-one-outbuf", "len(self.outbufs) >= 1")]
 # accounting invariant total_outbufs_len == sum(len(b) for b in outbufs) needs a sum over a list of buffers: not proved, only its
 # consequence is ASSUMED (listed in the evidence)
@@ -149,6 +153,9 @@ def install(reg):
     buffers_abs.install(reg)
     receiver.install(reg)
     parser.install(reg)
+    # the channel never looks inside a parser's receiver: keep it opaque here (avoids a 3-way split per parser state)
+    reg.classes[PARSER].fields["body_rcv"] = Opt(Opaque("receiver"))
+    reg.classes[PARSER].invariants = []
     reg.install_std_specs()
     reg.spec_funcs.update({"role_is": role_is, "pulled": ghost_flag("pulled"), "tasks_added": ghost_int("tasks_added"), "holds": holds,
                            "notified": notified, "seq": seq, "acquired": acquired})
@@ -175,6 +182,7 @@ def install(reg):
         z3.And(z3.BoolVal(eng.role == "W"), eng.truth(eng.state.heap[(me.oid, "requests")])))}
     reg.monitors[0].exempt = {("close_when_flushed", "handle_write"), ("requests", "cancel")}
     reg.monitors[1].assumed = list(OUT_ASSUMED)
+    reg.monitors[0].assumed = list(REQ_ASSUMED)
     reg.monitors[1].wait_post = "self.total_outbufs_len < self.adj.outbuf_high_watermark or not self.connected"
 
     reg.add_class(ClassSpec("buffers.ReadOnlyFileBasedBuffer", fields={"remain": Int}, invariants=[("remain-nonneg", "self.remain >= 0")], inherit=False))
@@ -291,7 +299,7 @@ def install_service(reg):
         requires=[("io", "role_is('IO')")],
         loops={0: LoopSpec(invariants=[("lock", "holds('requests_lock')"),
                                        ("C11-no-close-decision-while-parsing", "not self.close_when_flushed and not self.will_close"),
-                                       ("C19-no-completed-request-left-pending", "implies(self.request is not None, not self.request.completed)")],
+                                       ("C19-no-completed-request-left-pending", "implies(self.request is not None, not self.request.completed)")] + OUT_INV,
                            modifies=["self.total_outbufs_len", "self.connected", "self.last_activity", "self.outbufs", "self.current_outbuf_count"])}))
 
 
